@@ -232,3 +232,58 @@ Section LinesTop.
       + apply (binv_content lines tl); assumption.
   Qed.
 End LinesTop.
+
+(* ------------------------------------------------------------------ the statements of C09/Properties.v *)
+Lemma window_is_input_thm :
+  forall (L : Type) (llen : L -> Z) (PS : Type) (init_ps : PS)
+         (recog : PS -> L -> PS + Z) (bump : PS -> PS) (lineno : PS -> Z),
+    (forall l, 1 <= llen l) ->
+    forall (lines : list L) (tail : Z) (sch : list Z) (inp : list Z) (p : positive),
+    zlength inp = input_len L llen lines tail ->
+    let x0 := binit L PS (init_st L llen PS init_ps lines tail sch) inp in
+    let good (x : bst L PS) (s : st L PS) :=
+      x_s x = s /\
+      idx (x_b x) = buf s /\
+      x_cb x ++ bdata (x_b x) ++ x_in x = inp /\
+      x_cb x = zfirstn (total s) inp /\
+      bdata (x_b x) = zslice inp (total s) (total s + avail (buf s)) in
+    match iter_pos L llen PS recog bump lineno p (init_st L llen PS init_ps lines tail sch) with
+    | Next s => exists x, biter L llen PS recog bump lineno (Pos.to_nat p) x0 = BNext x /\ good x s
+    | Done r s => exists x, biter L llen PS recog bump lineno (Pos.to_nat p) x0 = BDone r x /\ good x s
+    | StPanic _ => False
+    end.
+Proof.
+  intros L llen PS init_ps recog bump lineno Hl lines tail sch inp p H x0 good.
+  pose proof (window_thm L llen PS init_ps recog bump lineno Hl lines tail sch inp p H) as W. cbv zeta in W. fold x0 in W.
+  destruct (iter_pos L llen PS recog bump lineno p (init_st L llen PS init_ps lines tail sch)) as [s|r s|t]; [| |exact W].
+  - destruct W as [x [A [B C]]]. exists x. split; [exact A|]. split; [exact B|]. subst s. exact C.
+  - destruct W as [x [A [B C]]]. exists x. split; [exact A|]. split; [exact B|]. subst s. exact C.
+Qed.
+
+Lemma data_is_the_lines_thm :
+  forall (L : Type) (llen : L -> Z) (PS : Type) (init_ps : PS)
+         (recog : PS -> L -> PS + Z) (bump : PS -> PS) (lineno : PS -> Z) (bytes_of : L -> list Z),
+    (forall l, exists body, bytes_of l = body ++ [10] /\ Forall (fun c => c <> 10) body /\ zlength (bytes_of l) = llen l) ->
+    forall (lines : list L) (tl : list Z) (sch : list Z) (p : positive),
+    Forall (fun c => c <> 10) tl ->
+    let inp := flat_map bytes_of lines ++ tl in
+    let s0 := init_st L llen PS init_ps lines (zlength tl) sch in
+    let x0 := binit L PS s0 inp in
+    let good (x : bst L PS) (s : st L PS) :=
+      x_s x = s /\
+      bdata (x_b x) ++ x_in x = zskipn (off s) (flat_map bytes_of (rest s) ++ tl) /\
+      position_nl (bdata (x_b x)) 0 = first_nl L llen PS s /\
+      (off s = 0 -> trim_nl (bdata (x_b x)) = flat_map bytes_of (fit llen (avail (buf s)) (rest s))) in
+    match iter_pos L llen PS recog bump lineno p s0 with
+    | Next s => exists x, biter L llen PS recog bump lineno (Pos.to_nat p) x0 = BNext x /\ good x s
+    | Done r s => exists x, biter L llen PS recog bump lineno (Pos.to_nat p) x0 = BDone r x /\ good x s
+    | StPanic _ => False
+    end.
+Proof.
+  intros L llen PS init_ps recog bump lineno bytes_of Hb lines tl sch p Htl inp s0 x0 good.
+  pose proof (lines_thm L llen PS init_ps recog bump lineno bytes_of Hb lines tl sch p Htl) as W. cbv zeta in W.
+  fold inp in W. fold s0 in W. fold x0 in W.
+  destruct (iter_pos L llen PS recog bump lineno p s0) as [s|r s|t]; [| |exact W].
+  - destruct W as [x [A [B [_ C]]]]. exists x. split; [exact A|]. split; [exact B|]. subst s. exact C.
+  - destruct W as [x [A [B [_ C]]]]. exists x. split; [exact A|]. split; [exact B|]. subst s. exact C.
+Qed.
